@@ -77,14 +77,25 @@ func seedBundle(d *DM, t *simkit.Tape, repo string, committed bool, indexFiles i
 	return id
 }
 
+var customSplitIDs = []string{"split-", "split-west-", "diamond-", "pod-", "worker_", "splits", "bundle-files-", "s"}
+
 func seedDiamond(d *DM, t *simkit.Tape, repo string, nSplits int, large bool) *mDiamond {
 	md := &mDiamond{ID: "", State: model.DiamondInitialized}
 	desc := model.NewDiamondDescriptor()
 	md.ID, md.Start = desc.DiamondID, desc.StartTime
 	time.Sleep(time.Duration(1000+t.Choose(2000)) * time.Millisecond)
 	d.VMetOrMeta().Seed(model.GetArchivePathToInitialDiamond(repo, md.ID), mustYAML(desc))
+	custom := ""
+	if t.Bool(1, 3) {
+		custom = customSplitIDs[t.Choose(len(customSplitIDs))]
+	}
 	for i := 0; i < nSplits; i++ {
 		sd := model.NewSplitDescriptor()
+		if custom != "" {
+			// split ids chosen by the user (datamon diamond split add --split-id), also ones that look like descriptor
+			// names; numbered so that id order and start-time order agree (see known finding key-order-across-pages)
+			sd = model.NewSplitDescriptor(model.SplitID(fmt.Sprintf("%s%03d", custom, i)))
+		}
 		sd.Contributors = append(sd.Contributors, contributor)
 		ms := &mSplit{ID: sd.SplitID, Start: sd.StartTime}
 		time.Sleep(time.Duration(1000+t.Choose(2000)) * time.Millisecond)
@@ -491,11 +502,20 @@ func runC07API(rc *RunCtx) *simkit.Violation {
 			}
 			md := &mDiamond{ID: ct.Result.(string), State: model.DiamondInitialized}
 			time.Sleep(1100 * time.Millisecond)
+			customPrefix := ""
+			if t.Bool(1, 2) {
+				customPrefix = customSplitIDs[t.Choose(len(customSplitIDs))]
+			}
 			for si := 0; si < t.Range(0, 3); si++ {
 				src := memDisk()
 				_ = writeTree(src, Tree{fmt.Sprintf("s%d/x", si): t.Bytes(10), "shared": []byte("same")})
 				var sid string
-				st, v := doOp(prop, w, setup, "split-add", splitAddFn(d.Stores(setup), rn, md.ID, "", src, 2, leaf, &sid))
+				chosen := ""
+				if customPrefix != "" {
+					chosen = fmt.Sprintf("%s%03d", customPrefix, si)
+					w.Probe("user-chosen-split-id")
+				}
+				st, v := doOp(prop, w, setup, "split-add", splitAddFn(d.Stores(setup), rn, md.ID, chosen, src, 2, leaf, &sid))
 				if v != nil {
 					return v
 				}
@@ -648,5 +668,69 @@ func runC07API(rc *RunCtx) *simkit.Violation {
 		return v
 	}
 	w.Probe("nontrivial")
+	return nil
+}
+
+func init() {
+	Register(&Scenario{Prop: "C07", Name: "known-key-order-across-pages", Strict: true, Quick: 1, Thorough: 1, Run: runC07KnownOrder})
+}
+
+// runC07KnownOrder reproduces the recorded finding: listings sort by start time inside one page of keys only, pages
+// follow key order, so splits with user-chosen ids whose lexical order disagrees with their start order come out of
+// order as soon as they fall into different pages.
+func runC07KnownOrder(rc *RunCtx) *simkit.Violation {
+	const prop = "C07"
+	w := rc.W
+	t := w.W
+	d := newDM(rc)
+	setup := w.Client("setup")
+	if v := createRepo(prop, d, setup, "r1"); v != nil {
+		return v
+	}
+	ct, v := doOp(prop, w, setup, "diamond-init", createDiamondFn(d.Stores(setup), "r1"))
+	if v != nil {
+		return v
+	}
+	if ct.Err != nil {
+		return Viol(prop, "harness", "CreateDiamond", "r1", "%v", ct.Err)
+	}
+	did := ct.Result.(string)
+	ids := []string{"b-started-first", "a-started-second"}
+	for i, id := range ids {
+		time.Sleep(time.Duration(1100+t.Choose(3000)) * time.Millisecond)
+		src := memDisk()
+		_ = writeTree(src, Tree{fmt.Sprintf("f%d", i): t.Bytes(10)})
+		st, v := doOp(prop, w, setup, "split-add", splitAddFn(d.Stores(setup), "r1", did, id, src, 2, 64, nil))
+		if v != nil {
+			return v
+		}
+		if st.Err != nil {
+			return Viol(prop, "harness", "split add", "r1", "%v", st.Err)
+		}
+	}
+	cl := w.Client("lister")
+	for _, batch := range []int{1024, 2, 1} {
+		b := batch
+		tk, v := doOp(prop, w, cl, "list-splits", func() (interface{}, error) {
+			return core.ListSplits("r1", did, d.Stores(cl), core.BatchSize(b), core.ConcurrentList(t.Pick(1, 4)))
+		})
+		if v != nil {
+			return v
+		}
+		if tk.Err != nil {
+			return Viol(prop, "list-error", "ListSplits", did, "ListSplits failed: %v", tk.Err)
+		}
+		var got []string
+		for _, x := range tk.Result.(model.SplitDescriptors) {
+			got = append(got, x.SplitID)
+		}
+		if len(got) != 2 {
+			return Viol(prop, "missing", "ListSplits", did, "ListSplits (batch %d) returned %v, want both of %v", b, got, ids)
+		}
+		if got[0] != ids[0] || got[1] != ids[1] {
+			w.Probe("nontrivial")
+			return Viol(prop, "order", "key-order-across-pages", did, "ListSplits with page size %d returned %v: the documented order is by start time, %v", b, got, ids)
+		}
+	}
 	return nil
 }
